@@ -444,6 +444,53 @@ func c04Gen(rng *rand.Rand, tier string, w *bufio.Writer) {
 		}
 		id++
 	}
+	// ---- checksum-valid blocks around damaged *payloads*: drives Entry.Deserialize's bounds checks
+	nForged := 400
+	if tier == "thorough" {
+		nForged = 20000
+	}
+	fmt.Fprintf(w, "case %d\n", id)
+	for i := 0; i < nForged; i++ {
+		var u []byte
+		n := 1 + rng.Intn(4)
+		for k := 0; k < n; k++ {
+			e := v2.Entry{Operation: uint8(1 + rng.Intn(4)), Key: string(c01GenBytes(1+rng.Intn(6), rng.Intn(99))), Data: c01GenBytes(rng.Intn(30), rng.Intn(99))}
+			u = append(u, e.Serialize()...)
+		}
+		count := uint16(n)
+		switch rng.Intn(8) {
+		case 0: // key length field beyond the payload
+			binary.LittleEndian.PutUint16(u[1:3], uint16(len(u)+rng.Intn(70000)))
+		case 1: // data length field beyond the payload (last entry)
+			if len(u) >= 4 {
+				binary.LittleEndian.PutUint32(u[len(u)-4-min(len(u)-4, rng.Intn(8)):], uint32(rng.Intn(1<<31)))
+			}
+		case 2: // cut the payload
+			u = u[:rng.Intn(len(u))]
+		case 3: // random payload bytes
+			for k := 1 + rng.Intn(4); k > 0; k-- {
+				u[rng.Intn(len(u))] = byte(rng.Intn(256))
+			}
+		case 4: // zero key length
+			u[1], u[2] = 0, 0
+		case 5: // count too high / too low
+			count = uint16(int(count) + rng.Intn(5) - 2)
+		case 6: // pure noise payload
+			rng.Read(u)
+		}
+		c := snappy.Encode(nil, u)
+		usize := uint32(len(u))
+		if rng.Intn(10) == 0 {
+			usize += uint32(rng.Intn(3))
+		}
+		x := append(append([]byte{}, hdr...), c04Block(uint32(len(c)), usize, count, c, true)...)
+		if rng.Intn(4) == 0 { // a second, intact block after it
+			u2 := c04Entries(v2.Entry{Operation: 1, Key: "z", Data: []byte("after")})
+			c2 := snappy.Encode(nil, u2)
+			x = append(x, c04Block(uint32(len(c2)), uint32(len(u2)), 1, c2, true)...)
+		}
+		emit(x, 0, "payload")
+	}
 	// ---- random bytes, with and without a plausible header
 	fmt.Fprintf(w, "case %d\n", id)
 	for i := 0; i < nRand; i++ {
@@ -457,7 +504,7 @@ func c04Gen(rng *rand.Rand, tier string, w *bufio.Writer) {
 			nm := make([]byte, rng.Intn(20))
 			rng.Read(nm)
 			x = append(c04Header(3, nm), x...)
-			if rng.Intn(2) == 0 && len(x) > 64+16 { // small claimed size so that parsing goes deeper
+			if rng.Intn(2) == 0 && len(x) >= 64+len(nm)+16 { // small claimed size so that parsing goes deeper
 				binary.LittleEndian.PutUint32(x[64+len(nm):], uint32(rng.Intn(64)))
 			}
 		}
